@@ -89,6 +89,9 @@ def do_classify(handle, txn, rows, live=False):
         return {'exception': type(e).__name__ + ': ' + str(e)[:120]}
 
 
+_SHARED_SPEC = {}
+
+
 def do_parse_csv(handle, txn, rows, tmpdir, live=False, earlier=()):
     from tally.format_parser import parse_format_string
     from tally.parsers import parse_generic_csv
@@ -100,7 +103,11 @@ def do_parse_csv(handle, txn, rows, tmpdir, live=False, earlier=()):
         for x in list(earlier) + [txn]:          # `earlier`: rows of the same statement file that are read before the one in question
             w.writerow([x['date'].isoformat()[:10], x['description'], (x.get('field') or {}).get('memo', ''), (x.get('field') or {}).get('code', ''),
                         repr(float(x['amount']))])
-    spec = parse_format_string('{date:%Y-%m-%d},{description},{memo},{code},{amount}')
+    # (the long-lived process keeps ONE parsed format for all the statements of this layout, as a library caller would; the pristine process parses it anew)
+    if live:
+        spec = _SHARED_SPEC.get('spec') or _SHARED_SPEC.setdefault('spec', parse_format_string('{date:%Y-%m-%d},{description},{memo},{code},{amount}'))
+    else:
+        spec = parse_format_string('{date:%Y-%m-%d},{description},{memo},{code},{amount}')
     try:
         out = parse_generic_csv(p, spec, rules, source_name=txn.get('source') or 'CSV', transforms=transforms,
                                 data_sources=(rows if live else O.copy_rows(rows)) if rows is not None else None)
@@ -684,6 +691,18 @@ def run_sequence(rec, pool, pr, rnd, nops, tmp, fresh_rate):
                                       dict(case_base, txn=O.jtxn(txn)))
                 except Exception:
                     pass
+            # ... and re-used for a file that has been EMPTIED (nothing, blanks, comments only): it holds no rule, no variable and no transform afterwards
+            try:
+                blank = rnd.choice(['', '\n', '   \n\n', '# all rules removed for now\n'])
+                eng.parse(blank)
+                r7 = eng.match(copy.deepcopy(txn), data_sources=copy.deepcopy(rows))
+                rec.count('engine_reloaded_with_an_emptied_file')
+                if eng.rules or eng.variables or eng.transforms or r7.matched or r7.tags:
+                    rec.violation('reloaded-engine-keeps-old-state', f'engine.parse({blank!r}) after a file with {len(eng.rules)} rules: the engine still holds rules / variables / '
+                                  f'transforms and classifies {txn.get("description")!r} as {(r7.merchant, r7.category, sorted(r7.tags))}', dict(case_base, txn=O.jtxn(txn)))
+                eng.parse(f['text'])
+            except Exception:
+                pass
             # the same engine object asked WITHOUT supplemental data after it was asked with it
             try:
                 r6 = eng.match(copy.deepcopy(txn), data_sources=None)
